@@ -17,3 +17,6 @@ def proved(run):
     C20_proved.add_eos(run)
     for o in run.obligations[n0:]:
         o["name"] = o["name"].replace("C20/", "C01/", 1)
+
+    from props import resolves as _res
+    _res.budget_obligation(run, "C01")
